@@ -51,6 +51,10 @@ pub struct Req {
     /// (RFC 8945 4.3.2: the MAC covers the message with the *original* ID)
     #[serde(default)]
     pub forwarded: bool,
+    /// the request carries an unrelated record in its additional section, before OPT and TSIG
+    /// (legal: RFC 8945 only requires the TSIG RR to be the last one)
+    #[serde(default)]
+    pub extra_additional: bool,
 }
 #[derive(Clone, Debug, Serialize, Deserialize)]
 pub struct Scn {
@@ -124,6 +128,7 @@ impl Prop for C10 {
                     question: r.below(6) as u8,
                     upper_key_name: chance(r, 20),
                     forwarded: chance(r, 15),
+                    extra_additional: chance(r, 8),
                 }
             })
             .collect();
@@ -162,6 +167,9 @@ impl Prop for C10 {
             if q.upper_key_name {
                 simpler.push(Req { upper_key_name: false, ..q.clone() });
             }
+            if q.extra_additional {
+                simpler.push(Req { extra_additional: false, ..q.clone() });
+            }
             if q.forwarded {
                 simpler.push(Req { forwarded: false, ..q.clone() });
             }
@@ -184,7 +192,7 @@ impl Prop for C10 {
         h
     }
     fn rule() -> String {
-        "one execution = a server with 1-4 TSIG keys (HMAC-SHA1/SHA256, random names and secrets of 1-100 octets) receiving 1-6 requests signed by an independent RFC 8945 implementation: client clock skew (0, +-fudge, +-(fudge+1), up to +-70000 s), server wall-clock steps forwards/backwards between requests (incl. close to 2^39 s), fudge {0,1,300,65535}, MAC truncation {full, half, 10, 9, half-1, full+1}, tampered octet, wrong secret, unknown key, key with the other algorithm, unknown algorithm name, UDP/TCP, with/without EDNS, key names differing in case or sharing a suffix with names in the zone's RDATA (compression of the TSIG owner), answers truncated over UDP before and after name-bearing RRsets were written, requests relayed by a forwarder (header ID differs from the TSIG original ID). Non-trivial = at least one request is not a plain valid one; distinct = distinct scenario".into()
+        "one execution = a server with 1-4 TSIG keys (HMAC-SHA1/SHA256, random names and secrets of 1-100 octets) receiving 1-6 requests signed by an independent RFC 8945 implementation: client clock skew (0, +-fudge, +-(fudge+1), up to +-70000 s), server wall-clock steps forwards/backwards between requests (incl. close to 2^39 s), fudge {0,1,300,65535}, MAC truncation {full, half, 10, 9, half-1, full+1}, tampered octet, wrong secret, unknown key, key with the other algorithm, unknown algorithm name, UDP/TCP, with/without EDNS, key names differing in case or sharing a suffix with names in the zone's RDATA (compression of the TSIG owner), answers truncated over UDP before and after name-bearing RRsets were written, requests relayed by a forwarder (header ID differs from the TSIG original ID), requests with an unrelated record in the additional section before OPT/TSIG. Non-trivial = at least one request is not a plain valid one; distinct = distinct scenario".into()
     }
     fn assumptions() -> Vec<String> {
         vec![
@@ -204,7 +212,7 @@ impl Prop for C10 {
         "E3 simrt-sequential"
     }
     fn expected_probes() -> Vec<&'static str> {
-        vec!["c10_ok", "c10_badsig", "c10_badkey", "c10_badtime", "c10_formerr_mac_size", "c10_window_edge_accepted", "c10_window_edge_rejected", "c10_truncated_mac_accepted", "c10_truncated_signed_response", "c10_forwarded_request"]
+        vec!["c10_ok", "c10_badsig", "c10_badkey", "c10_badtime", "c10_formerr_mac_size", "c10_window_edge_accepted", "c10_window_edge_rejected", "c10_truncated_mac_accepted", "c10_truncated_signed_response", "c10_forwarded_request", "c10_extra_additional_record"]
     }
 }
 
@@ -273,7 +281,18 @@ fn run(scn: &Scn) {
             // RRset overflows a UDP response and the sections are emptied again
             _ => ("example.", wire::T_ANY),
         };
-        let unsigned = wire::query_full(0x1000 + i as u16, &wire::name(qn), qt, wire::C_IN, 0, if q.edns { Some(1232) } else { None });
+        let unsigned = {
+            let mut m = wire::Msg { id: 0x1000 + i as u16, flags: 0, ..Default::default() };
+            m.questions.push(wire::Question { qname: wire::name(qn), qtype: qt, qclass: wire::C_IN });
+            if q.extra_additional {
+                m.additional.push(wire::Rr { owner: wire::name("extra.example."), rtype: wire::T_A, class: wire::C_IN, ttl: 5, rdata: vec![192, 0, 2, 7], rdata_off: 0, rr_off: 0 });
+                simrt::probe("c10_extra_additional_record");
+            }
+            if q.edns {
+                m.additional.push(wire::opt_rr(1232, 0, 0, &[]));
+            }
+            wire::encode(&m)
+        };
         let spec = SignSpec { key_name: wire::name(&key_name), alg: sign_alg, alg_name, secret: secret.clone(), time: t_signed, fudge: q.fudge, mac_len };
         let (mut signed, req_mac) = tsigref::sign_request(&unsigned, &spec);
         let mut unsigned = unsigned;
